@@ -169,3 +169,255 @@ def _u256_lz(it, st, args, ctx):
     for i in range(256):
         r = z3.If(z3.Extract(i, i, a) == 1, bv(255 - i, 32), r)
     return r
+
+
+# ---- more of ethnum::U256 (BV256) ---------------------------------------------------------------------------
+
+@summary(_u256(r'overflowing_(add|sub|mul)'))
+def _u256_overflowing(it, st, args, ctx):
+    a, b = args
+    if 'add' in ctx.callee:
+        r, o = a + b, z3.Not(z3.BVAddNoOverflow(a, b, False))
+    elif 'sub' in ctx.callee:
+        r, o = a - b, z3.ULT(a, b)
+    else:
+        r, o = a * b, z3.Not(z3.BVMulNoOverflow(a, b, False))
+    return Agg('tuple', [r, o])
+
+
+@summary(_u256(r'checked_(div|rem)'))
+def _u256_checked_div(it, st, args, ctx):
+    a, b = args
+    r = z3.UDiv(a, b) if 'div' in ctx.callee else z3.URem(a, b)
+    return mk_option(b != 0, r)
+
+
+@summary(_u256(r'wrapping_sh(l|r)'))
+def _u256_wrapping_shift(it, st, args, ctx):
+    a, s = args
+    amt = z3.ZeroExt(256 - 32, s) & bv(255, 256)
+    return (a << amt) if ctx.callee.endswith('shl') else z3.LShR(a, amt)
+
+
+@summary(r'^(ethnum::)?U256::as_u32$|' + _u256(r'as_u32'))
+def _u256_as_u32(it, st, args, ctx):
+    a = deref(it, st, args[0]) if isinstance(args[0], Ptr) else args[0]
+    return z3.Extract(31, 0, a)
+
+
+@summary(r'^(ethnum::)?U256::low$|' + _u256(r'low'))
+def _u256_low(it, st, args, ctx):
+    a = deref(it, st, args[0]) if isinstance(args[0], Ptr) else args[0]
+    return Ptr(st.alloc(z3.Extract(127, 0, a)))
+
+
+@summary(r'^<(ethnum::)?U256 as (std::ops::)?(BitAnd|BitOr|BitXor)>::(bitand|bitor|bitxor)$')
+def _u256_bitop(it, st, args, ctx):
+    a, b = args
+    if ctx.callee.endswith('bitand'):
+        return a & b
+    if ctx.callee.endswith('bitor'):
+        return a | b
+    return a ^ b
+
+
+@summary(r'^<(ethnum::)?U256 as (std::ops::)?Not>::not$')
+def _u256_not(it, st, args, ctx):
+    return ~args[0]
+
+
+@summary(r'^<(ethnum::)?U256 as (std::ops::)?ShrAssign<\w+>>::shr_assign$')
+def _u256_shr_assign(it, st, args, ctx):
+    a = it.load(st, args[0])
+    s = args[1]
+    amt = int_cast(s, False, 256) if s.size() < 256 else s
+    it.store(st, args[0], z3.LShR(a, amt))
+    return UNIT
+
+
+@summary(r'^<(ethnum::)?U256 as (PartialOrd|PartialEq|Ord)>::(gt|lt|ge|le|eq|ne)$')
+def _u256_cmp(it, st, args, ctx):
+    a, b = deref(it, st, args[0]), deref(it, st, args[1])
+    op = ctx.callee.rsplit('::', 1)[1]
+    return {'gt': z3.UGT(a, b), 'lt': z3.ULT(a, b), 'ge': z3.UGE(a, b), 'le': z3.ULE(a, b), 'eq': a == b, 'ne': a != b}[op]
+
+
+@summary(r'^<(ethnum::)?U256 as From<(u8|u16|u32|u64|u128|usize)>>::from$|^<(u8|u16|u32|u64|u128|usize) as Into<(ethnum::)?U256>>::into$')
+def _u256_from(it, st, args, ctx):
+    return z3.ZeroExt(256 - args[0].size(), args[0])
+
+
+@summary(r'^<(std::option::)?Option<(ethnum::)?U256> as PartialEq>::(eq|ne)$')
+def _opt_u256_eq(it, st, args, ctx):
+    a, b = deref(it, st, args[0]), deref(it, st, args[1])
+    e = val_eq(a, b)
+    return simp(e if ctx.callee.endswith('eq') else z3.Not(e))
+
+
+# ---- catvec::CatVec<T, N>: a sequence of concrete (harness-bounded) length ------------------------------------
+
+def _cv(it, st, v):
+    while isinstance(v, Ptr):
+        v = it.load(st, v)
+    if isinstance(v, Agg):
+        return v
+    raise Unsupported('expected a CatVec, got %r' % (v,))
+
+
+@summary(r'^(catvec::)?CatVec::<.*>::len$')
+def _cv_len(it, st, args, ctx):
+    return bv(len(_cv(it, st, args[0]).fields), 64)
+
+
+@summary(r'^<(catvec::)?CatVec<.*> as Default>::default$')
+def _cv_default(it, st, args, ctx):
+    return Agg('CatVec', [])
+
+
+@summary(r'^<(catvec::)?CatVec<.*> as From<.*>>::from$|^<.* as Into<(catvec::)?CatVec<.*>>>::into$')
+def _cv_from(it, st, args, ctx):
+    src = args[0]
+    while isinstance(src, Ptr):
+        src = it.load(st, src)
+    if isinstance(src, Agg):
+        return Agg('CatVec', src.fields)
+    if isinstance(src, z3.ExprRef) and z3.is_bv(src) and src.size() == 256:
+        return Agg('CatVec', [simp(z3.Extract(255 - 8 * i, 248 - 8 * i, src)) for i in range(32)])
+    raise Unsupported('CatVec from %r' % (src,))
+
+
+@summary(r'^<(catvec::)?CatVec<.*> as Into<Vec<.*>>>::into$|^<Vec<.*> as From<(catvec::)?CatVec<.*>>>::from$')
+def _cv_into_vec(it, st, args, ctx):
+    return Agg('Vec', _cv(it, st, args[0]).fields)
+
+
+def _fork_index(it, st, idx, n):
+    """[(state, k)] for k in 0..n-1 plus (state, None) for out of range"""
+    idx = simp(idx)
+    if z3.is_bv_value(idx):
+        v = idx.as_long()
+        return [(st, v if v < n else None)]
+    outs = []
+    for k in range(n):
+        c = idx == bv(k, idx.size())
+        if it.feasible(st, c):
+            s2 = st.fork()
+            s2.assume(c)
+            outs.append((s2, k))
+    c = z3.UGE(idx, bv(n, idx.size()))
+    if it.feasible(st, c):
+        st.assume(c)
+        outs.append((st, None))
+    return outs
+
+
+@summary(r'^(catvec::)?CatVec::<.*>::(get|get_mut)$')
+def _cv_get(it, st, args, ctx):
+    p = args[0]
+    while isinstance(p, Ptr) and isinstance(it.load(st, p), Ptr):
+        p = it.load(st, p)
+    v = _cv(it, st, p)
+    outs = []
+    for s2, k in _fork_index(it, st, args[1], len(v.fields)):
+        if k is None:
+            outs.append((s2, Ret(mk_none())))
+        else:
+            ptr = p if isinstance(p, Ptr) else Ptr(s2.alloc(v))
+            outs.append((s2, Ret(mk_some(Ptr(ptr.cell, ptr.path + (('i', k),))))))
+    return outs
+
+
+@summary(r'^(catvec::)?CatVec::<.*>::push_back$')
+def _cv_push_back(it, st, args, ctx):
+    v = _cv(it, st, args[0])
+    it.store(st, args[0], Agg('CatVec', v.fields + (args[1],)))
+    return UNIT
+
+
+@summary(r'^(catvec::)?CatVec::<.*>::insert$')
+def _cv_insert(it, st, args, ctx):
+    v = _cv(it, st, args[0])
+    i = simp(args[1])
+    if not z3.is_bv_value(i):
+        raise Unsupported('CatVec::insert at a symbolic index')
+    k = i.as_long()
+    if k > len(v.fields):
+        return Panic('CatVec::insert out of bounds', ctx.fn.name)
+    it.store(st, args[0], Agg('CatVec', v.fields[:k] + (args[2],) + v.fields[k:]))
+    return UNIT
+
+
+@summary(r'^(catvec::)?CatVec::<.*>::append$')
+def _cv_append(it, st, args, ctx):
+    v = _cv(it, st, args[0])
+    o = _cv(it, st, args[1])
+    it.store(st, args[0], Agg('CatVec', v.fields + o.fields))
+    return UNIT
+
+
+@summary(r'^(catvec::)?CatVec::<.*>::slice_into::<')
+def _cv_slice_into(it, st, args, ctx):
+    v = _cv(it, st, args[0])
+    r = args[1]
+    n = len(v.fields)
+    outs = []
+    for s2, a in _fork_index(it, st, r.fields[0], n + 1):
+        for s3, b in _fork_index(it, s2, r.fields[1], n + 1):
+            if a is None or b is None or a > b:
+                outs.append((s3, Panic('CatVec::slice_into out of range', ctx.fn.name)))
+            else:
+                it.store(s3, args[0], Agg('CatVec', v.fields[a:b]))
+                outs.append((s3, Ret(UNIT)))
+    return outs
+
+
+@summary(r'^<(catvec::)?CatVec<.*> as Clone>::clone$')
+def _cv_clone(it, st, args, ctx):
+    return _cv(it, st, args[0])
+
+
+@summary(r'^Vec::<.*>::pop$')
+def _vec_pop(it, st, args, ctx):
+    v = it.load(st, args[0])
+    if not v.fields:
+        return mk_none()
+    it.store(st, args[0], Agg(v.ty, v.fields[:-1]))
+    return mk_some(v.fields[-1])
+
+
+@summary(r'^<Vec<u8> as TryInto<\[u8; 32\]>>::try_into$|^<\[u8; 32\] as TryFrom<Vec<u8>>>::try_from$')
+def _vec_try_into_32(it, st, args, ctx):
+    v = args[0]
+    while isinstance(v, Ptr):
+        v = it.load(st, v)
+    if len(v.fields) == 32:
+        return mk_ok(Agg('array', v.fields))
+    return mk_err(v)
+
+
+@summary(r'^(tmelcrypt::)?Ed25519PK::from_bytes$')
+def _pk_from_bytes(it, st, args, ctx):
+    _, s = seq_of(it, st, args[0])
+    if len(s.fields) != 32:
+        return mk_none()
+    return mk_some(Agg('Ed25519PK', [simp(z3.Concat(*s.fields))]))
+
+
+@summary(r'^<.* as (tap::)?Tap>::tap_mut::<')
+def _tap_mut(it, st, args, ctx):
+    cell = st.alloc(args[0])
+    outs = []
+    for s2, r in it.call_closure(st, args[1], [Ptr(cell)], ctx):
+        if isinstance(r, Panic):
+            outs.append((s2, r))
+        else:
+            outs.append((s2, Ret(s2.heap[cell])))
+    return outs
+
+
+@summary(r'^<(ethnum::)?U256 as (PartialOrd|Ord)>::(partial_cmp|cmp)$')
+def _u256_partial_cmp(it, st, args, ctx):
+    a, b = deref(it, st, args[0]), deref(it, st, args[1])
+    d = z3.If(z3.ULT(a, b), bv(-1, 8), z3.If(a == b, bv(0, 8), bv(1, 8)))
+    o = EnumV('Ordering', d, {'Less': (), 'Equal': (), 'Greater': ()})
+    return mk_some(o) if ctx.callee.endswith('partial_cmp') else o
